@@ -8,6 +8,7 @@ import JanetModel.GC.Locked
 import JanetModel.GC.WeakLemmas
 import JanetModel.GC.RingMark
 import JanetModel.GC.SymSweep
+import JanetModel.GC.ParserMark
 
 namespace JanetModel.Props.C01
 open JanetModel.GC Std
@@ -671,5 +672,36 @@ example (m : HashSet Nat) (h0 : m.contains 0 = false) (h1 : m.contains 1 = true)
   decide
 
 end symcache
+
+/-! ### session 4: the conditional mark of `parsermark` (parse.c).  `parser->error` is marked as a heap string only when the
+flag bit JANET_PARSER_GENERATED_ERROR is set; `Gen.GC.parserSites` is every write of `->error` / `->flag` in parse.c. -/
+section parser
+open JanetModel.GC.ParserMark
+
+/-- the finite certificate over the regenerated write table: every function keeps "bit set ⇔ error is the heap string",
+from every state in which it can run (a `flag = JANET_PARSER_DEAD` in janet_parser_eof, a cleared bit without clearing the
+pointer, a static message stored while the bit is set … make this `decide` fail) -/
+theorem parser_sites_keep_inv : sitesKeepInv Gen.GC.parserSites = true := by decide
+
+/-- **Whenever a collection can see a parser, `parsermark` marks its error message iff the message is heap-allocated** -
+after every history of parser API calls (consume with any callback outcome, eof, error, clone from any parser that satisfies
+the same, re-init) from `janet_parser_init`. -/
+theorem parser_error_marked_iff_heap (es : List Ev) (hall : ∀ e ∈ es, e.site ∈ Gen.GC.parserSites ∧ ParserMark.Inv e.src = true) :
+    marksError (run ⟨.null, false, false⟩ es) = true ↔ (run ⟨.null, false, false⟩ es).err = .heap := by
+  have h := run_inv Gen.GC.parserSites parser_sites_keep_inv es ⟨.null, false, false⟩ (by decide) hall
+  unfold ParserMark.Inv at h
+  unfold marksError
+  cases hg : (run ⟨.null, false, false⟩ es).gen <;> simp [hg] at h ⊢ <;> exact h
+
+/-- non-vacuity: consume hits a static error, parser/error clears it, eof inside an open delimiter generates the heap message
+and kills the parser: the message is marked.  With `flag = JANET_PARSER_DEAD` in janet_parser_eof (seed C01-6) the same history
+ends with a heap message that is not marked, and the certificate is false. -/
+example :
+    run ⟨.null, false, false⟩ [⟨("root", true, [.errStatic, .errStatic]), ⟨.null, false, false⟩⟩, ⟨("janet_parser_error", false, [.errNull, .clearGen]), ⟨.null, false, false⟩⟩,
+      ⟨("delim_error", true, [.errHeap, .setGen]), ⟨.null, false, false⟩⟩, ⟨("janet_parser_eof", false, [.setDead]), ⟨.null, false, false⟩⟩] = ⟨.heap, true, true⟩ ∧
+    run ⟨.null, false, false⟩ [⟨("delim_error", true, [.errHeap, .setGen]), ⟨.null, false, false⟩⟩, ⟨("janet_parser_eof", false, [.flagOnlyDead]), ⟨.null, false, false⟩⟩] = ⟨.heap, false, true⟩ ∧
+    sitesKeepInv [("janet_parser_eof", false, [.flagOnlyDead])] = false := by decide
+
+end parser
 
 end JanetModel.Props.C01
